@@ -14,7 +14,7 @@ for d in sorted(glob.glob(src+'/C*')):
         os.makedirs(out,exist_ok=True)
         shutil.copy(m,out+'/patch.diff'); shutil.copy(demo,out+'/demo_test.go')
         meta2={'property':pid,'summary':meta.get('summary',''),'files':meta.get('files',[]),'needs_to_manifest':meta.get('needs_to_manifest',''),
-          'origin':f'round {rn}: written by an independent sub-agent that saw only the property text, summaries of earlier changes and a scratch worktree; '+('a plain slip of one to five lines, preferably inside a helper that computes results' if k<3 else 'a small everyday refactoring (10-40 lines, kept as the reference member of the pair) with one slip'),
+          'origin':f'round {rn}: written by an independent sub-agent that saw only the property text, summaries of earlier changes and a scratch worktree; '+({1:'a plain slip of one to five lines, preferably inside a helper that computes results',2:'two cooperating edits at two sites, each harmless alone (round 9) / a second plain slip (rounds 6, 7)',3:'a small everyday refactoring (10-40 lines, kept as the reference member of the pair) with one slip'}[k]),
           'confirmed_at_repo_commit':'0a5d9c8',
           'confirmed_by_me':['git apply patch.diff in a scratch worktree of /repo HEAD','go build ./... && go vet ./...  -> clean','go test -count=1 ./...  -> existing suite passes with the patch','cp demo_test.go seed_demo_test.go && go test -count=1 -run TestSeedDemo .  -> FAILS with the patch, PASSES on HEAD'+('' if k<3 else ' and with the reference refactoring')]}
         json.dump(meta2,open(out+'/meta.json','w'),indent=1); ns+=1
